@@ -406,6 +406,25 @@ func C08(r *h.Run) {
 		}
 	}
 
+	// ---- a corrupt compressed message must not leave a pooled decompressor shared between
+	// later calls: tracked decompressors, then concurrent valid calls ----
+	for round := 0; round < r.N(4, 20); round++ {
+		corrupt := [][]byte{
+			append([]byte{'B'}, []byte("wrong tag: fails in Read, after Reset accepted the stream")...),
+			{},
+			append([]byte{'B'}, bytes.Repeat([]byte{1}, 10)...),
+		}
+		probs, wrong, first := decompressorSharing(corrupt[:1+round%3], 16, 12)
+		r.Eval("decompressor_sharing", fmt.Sprint(round))
+		in := map[string]any{"corrupt_messages_first": 1 + round%3, "then": "16 goroutines x 12 valid compressed unary calls on the same handler"}
+		for _, pr := range probs {
+			r.Fail(h.Failure{Key: "pool/decompressor-shared", Family: "decompressor_sharing", What: pr + " (after a corrupt compressed message)", Input: in})
+		}
+		if wrong > 0 {
+			r.Fail(h.Failure{Key: "corrupt/later-calls-affected", Family: "decompressor_sharing", What: fmt.Sprintf("%d valid call(s) after a corrupt compressed message did not get the echo of their own request", wrong), Input: in, Actual: first})
+		}
+	}
+
 	// ---- histories of corrupt and valid compressed calls on shared pools ----
 	for _, procs := range []int{1, 16} {
 		old := runtime.GOMAXPROCS(procs)
